@@ -110,6 +110,25 @@ macro_rules! check_typed {
             $v.fail("partial_cmp with a float differs from the float comparison", format!("{:e} vs {:e}", x, f));
             return;
         }
+        // ---- the same comparisons through the generic number container, every operand position
+        {
+            let (na, nb, nf) = (wrap(a.clone()), wrap(b.clone()), Number::F64(f));
+            let cont: [(&str, Option<Ordering>, [bool; 4], Option<Ordering>); 6] = [
+                ("container vs container", na.partial_cmp(&nb), [na < nb, na <= nb, na > nb, na >= nb], x.partial_cmp(&y)),
+                ("container vs float container", na.partial_cmp(&nf), [na < nf, na <= nf, na > nf, na >= nf], x.partial_cmp(&f)),
+                ("float container vs container", nf.partial_cmp(&na), [nf < na, nf <= na, nf > na, nf >= na], f.partial_cmp(&x)),
+                ("container vs float", na.partial_cmp(&f), [na < f, na <= f, na > f, na >= f], x.partial_cmp(&f)),
+                ("float vs container", f.partial_cmp(&na), [f < na, f <= na, f > na, f >= na], f.partial_cmp(&x)),
+                ("float vs float container", f.partial_cmp(&nf), [f < nf, f <= nf, f > nf, f >= nf], f.partial_cmp(&f)),
+            ];
+            for (name, got, ops, exp) in cont {
+                let exp_ops = [exp == Some(Ordering::Less), matches!(exp, Some(Ordering::Less | Ordering::Equal)), exp == Some(Ordering::Greater), matches!(exp, Some(Ordering::Greater | Ordering::Equal))];
+                if got != exp || ops != exp_ops {
+                    $v.fail(format!("comparison through the number container differs from the float comparison | {}", name), format!("values {:e}, {:e}, float {:e}: partial_cmp {:?} (float comparison {:?}), [<, <=, >, >=] = {:?}", x, y, f, got, exp, ops));
+                    return;
+                }
+            }
+        }
         // equal value, equal numbers => Equal
         let twin: $T = $c.a.$mk();
         if a == twin && a.partial_cmp(&twin) != Some(Ordering::Equal) {
@@ -252,7 +271,7 @@ impl Property for C19 {
     }
 
     fn rule(&self) -> String {
-        "random (kind, two numbers with arbitrary derivative content and values of either sign incl. equal values, an alternative derivative content for the first, a float of either sign, a sequence of 0-5 numbers). Oracle: <,<=,>,>=,partial_cmp between numbers and with a float on either side == the float comparison of the values and unchanged when derivatives are replaced; a == b => Equal; abs flips value and every derivative iff the value is negative; a % b, a % float, float % b == a - b*trunc(a/b) by name in value and derivatives (1e-12) and in value == the float remainder; owned forms == reference forms; sum == left fold from zero by name, empty sum == variable-free zero; x+0, 0+x, x*1, 1*x == x by name; is_zero <=> value 0 and all derivatives 0. Non-trivial: a negative operand, divisor or float.".into()
+        "random (kind, two numbers with arbitrary derivative content and values of either sign incl. equal values, an alternative derivative content for the first, a float of either sign, a sequence of 0-5 numbers). Oracle: <,<=,>,>=,partial_cmp between numbers and with a float on either side == the float comparison of the values and unchanged when derivatives are replaced, also through the generic number container in all six operand positions (container/container, container/float container, container/float and the mirror images); a == b => Equal; abs flips value and every derivative iff the value is negative; a % b, a % float, float % b == a - b*trunc(a/b) by name in value and derivatives (1e-12) and in value == the float remainder; owned forms == reference forms; sum == left fold from zero by name, empty sum == variable-free zero; x+0, 0+x, x*1, 1*x == x by name; is_zero <=> value 0 and all derivatives 0. Non-trivial: a negative operand, divisor or float.".into()
     }
 
     fn floors(&self, tier: Tier) -> Vec<Floor> {
